@@ -79,10 +79,23 @@ func c14Build(tier string) []c14Resp {
 	var set []c14Resp
 	// a few fixed shapes first, so that every seed covers them
 	fixed := [][]string{{"done/final"}, {"rowfmt2/int4", "row/int4/typ", "row/int4/typ", "done/final"}, {"eed/error", "done/count"}, {"envchange/packsize", "loginack/succeed", "done/final"}}
+	// a response whose first packet is exactly as long as the packet size in force (512: 56 counted DONE packages of
+	// nine bytes) and does not end the message
+	{
+		var names []string
+		for i := 0; i < 56; i++ {
+			names = append(names, "done/count")
+		}
+		names = append(names, "done/final")
+		body, _, _ := buildResponse(names)
+		pk := peer.Packetise(body, []int{504}, peer.BufResponse, 0, true)
+		set = append(set, c14Resp{names, []int{504}, len(flat(pk))})
+		n++
+	}
 	for tries := 0; len(set) < n && tries < 100000; tries++ {
 		var names []string
-		if len(set) < len(fixed) {
-			names = fixed[len(set)]
+		if len(set)-1 < len(fixed) {
+			names = fixed[len(set)-1]
 		} else {
 			names = genResponse(r, 5)
 		}
